@@ -285,3 +285,72 @@ class LlcOptModel(LlcModel):
     def activate(self, mac, **options):
         self.got = options
         return nondet_bool()
+
+
+class IsoScriptClf(object):
+    """fault script for one ISO-DEP exchange of a single-block command (C12): the first attempt is lost or
+    corrupted; the PCD must then send R(NAK) with the current block number, to which a conforming card retransmits
+    its response I-block"""
+    def __init__(self, kind, pni, payload):
+        self.kind = kind            # 1 timeout, 2 transmission error
+        self.pni = pni
+        self.payload = payload
+        self.n = 0
+
+    def exchange(self, data, timeout):
+        self.n = self.n + 1
+        if self.n == 1:
+            if self.kind == 1:
+                raise nfc.clf.TimeoutError("lost")
+            raise nfc.clf.TransmissionError("corrupted")
+        require(self.n == 2, 'no further block after the retransmitted response')
+        require(bytes(data) == bytes([0xB2 | self.pni]), 'R(NAK) with the current block number after the fault')
+        return bytearray([0x02 | self.pni]) + self.payload
+
+
+class IsoChainScriptClf(object):
+    """fault script for a two-block (chained) command: the card's R(ACK) to the first block is lost; after the PCD's
+    R(NAK) the card repeats the R(ACK); the second block then goes out with the toggled block number, carrying the
+    rest of the command, and is answered by the response I-block"""
+    def __init__(self, pni, miu, command, payload):
+        self.pni, self.miu, self.command, self.payload = pni, miu, command, payload
+        self.n = 0
+
+    def exchange(self, data, timeout):
+        self.n = self.n + 1
+        if self.n == 1:
+            require(bytes(data) == bytes([0x12 | self.pni]) + bytes(self.command[0:self.miu]),
+                    'first I-block: chaining bit, current block number, the first miu octets')
+            raise nfc.clf.TimeoutError("R(ACK) lost")
+        if self.n == 2:
+            require(bytes(data) == bytes([0xB2 | self.pni]), 'R(NAK) with the current block number after the fault')
+            return bytearray([0xA2 | self.pni])
+        require(self.n == 3, 'no further block after the response')
+        require(bytes(data) == bytes([0x02 | (1 - self.pni)]) + bytes(self.command[self.miu:]),
+                'second I-block: toggled block number, the rest of the command, sent once')
+        return bytearray([0x02 | (1 - self.pni)]) + self.payload
+
+
+class IsoLostBlockScriptClf(object):
+    """fault script for a two-block command whose SECOND block never reaches the card: first block acknowledged,
+    second block lost, the card answers the R(NAK) with R(ACK) carrying the old block number, the PCD must send
+    the very same second block again, which is then answered by the response"""
+    def __init__(self, pni, miu, command, payload):
+        self.pni, self.miu, self.command, self.payload = pni, miu, command, payload
+        self.n = 0
+
+    def exchange(self, data, timeout):
+        self.n = self.n + 1
+        second = bytes([0x02 | (1 - self.pni)]) + bytes(self.command[self.miu:])
+        if self.n == 1:
+            require(bytes(data) == bytes([0x12 | self.pni]) + bytes(self.command[0:self.miu]), 'first I-block')
+            return bytearray([0xA2 | self.pni])
+        if self.n == 2:
+            require(bytes(data) == second, 'second I-block: toggled block number, the rest of the command')
+            raise nfc.clf.TimeoutError("block lost")
+        if self.n == 3:
+            require(bytes(data) == bytes([0xB2 | (1 - self.pni)]), 'R(NAK) with the current block number')
+            return bytearray([0xA2 | self.pni])
+        require(self.n == 4, 'no further block after the response')
+        require(bytes(data) == second, 'the retransmitted block is the same second I-block')
+        return bytearray([0x02 | (1 - self.pni)]) + self.payload
